@@ -30,6 +30,7 @@ FORCE_FORK = 'F'
 MERGE = 'M'
 
 FEAS_TIMEOUT_MS = 1500
+SITE_TIMEOUT_MS = 250      # "is this operand of and/or already decided?": only an optimisation, asked often
 
 
 def _conjuncts(t):
@@ -157,12 +158,18 @@ class PathState:
         """Add an instance of a universally valid fact: holds in every context, so it is not scoped."""
         self._add(t)
 
-    def check(self, *extra):
+    def check(self, *extra, timeout_ms=None):
         """sat / unsat / unknown of pc + scopes + extra."""
         self.stats['feasibility_queries'] = self.stats.get('feasibility_queries', 0) + 1
         import time as _t
         t0 = _t.time()
-        r = self.solver.check(*([x for x in self.scopes if not _has_quantifier(x)] + list(extra)))
+        if timeout_ms is not None:
+            self.solver.set('timeout', timeout_ms)
+        try:
+            r = self.solver.check(*([x for x in self.scopes if not _has_quantifier(x)] + list(extra)))
+        finally:
+            if timeout_ms is not None:
+                self.solver.set('timeout', FEAS_TIMEOUT_MS)
         dt = _t.time() - t0
         if dt > 1.0:
             self.stats.setdefault('slow_queries', []).append((round(dt, 2), str(r), [str(e)[:200] for e in extra]))
@@ -183,9 +190,11 @@ class PathState:
             return True       # over-approximate: explore
         return r == z3.sat
 
-    def must_hold(self, t):
+    def must_hold(self, t, timeout_ms=None):
         """True iff ``t`` is entailed by the current path condition (+ scopes)."""
-        r = self.check(z3.Not(t))
+        if self.lenabs.must_hold(t, self.scopes):
+            return True
+        r = self.check(z3.Not(t), timeout_ms=timeout_ms)
         return r == z3.unsat
 
     # ---- decisions --------------------------------------------------------------
@@ -280,10 +289,10 @@ class PathState:
             r = 'T' if k else 'N'
         elif _has_quantifier(t):
             r = 'U'
-        elif self.must_hold(t):
+        elif self.must_hold(t, timeout_ms=SITE_TIMEOUT_MS):
             r = 'T'
             self._record_known(t, True)
-        elif self.must_hold(z3.Not(t)):
+        elif self.must_hold(z3.Not(t), timeout_ms=SITE_TIMEOUT_MS):
             r = 'N'
             self._record_known(t, False)
         else:
